@@ -15,6 +15,7 @@ import (
 type RtpUnpackerAac struct {
 	payloadType base.AvPacketPt
 	clockRate   int
+	clock       rtpClock
 	onAvPacket  OnAvPacket
 }
 
@@ -22,6 +23,7 @@ func NewRtpUnpackerAac(payloadType base.AvPacketPt, clockRate int, onAvPacket On
 	return &RtpUnpackerAac{
 		payloadType: payloadType,
 		clockRate:   clockRate,
+		clock:       rtpClock{clockRate: clockRate},
 		onAvPacket:  onAvPacket,
 	}
 }
@@ -77,7 +79,7 @@ func (unpacker *RtpUnpackerAac) TryUnpackOne(list *RtpPacketList) (unpackedFlag 
 			// one complete access unit
 			var outPkt base.AvPacket
 			outPkt.PayloadType = unpacker.payloadType
-			outPkt.Timestamp = rtpTimestamp2Ms(p.Packet.Header.Timestamp, unpacker.clockRate)
+			outPkt.Timestamp = unpacker.clock.ms(p.Packet.Header.Timestamp)
 			outPkt.Payload = b[aus[0].pos : aus[0].pos+aus[0].size]
 			unpacker.onAvPacket(outPkt)
 
@@ -134,7 +136,7 @@ func (unpacker *RtpUnpackerAac) TryUnpackOne(list *RtpPacketList) (unpackedFlag 
 			} else if cacheSize == totalSize {
 				var outPkt base.AvPacket
 				outPkt.PayloadType = unpacker.payloadType
-				outPkt.Timestamp = rtpTimestamp2Ms(p.Packet.Header.Timestamp, unpacker.clockRate)
+				outPkt.Timestamp = unpacker.clock.ms(p.Packet.Header.Timestamp)
 				for _, a := range as {
 					outPkt.Payload = append(outPkt.Payload, a...)
 				}
@@ -160,7 +162,7 @@ func (unpacker *RtpUnpackerAac) TryUnpackOne(list *RtpPacketList) (unpackedFlag 
 		}
 		var outPkt base.AvPacket
 		outPkt.PayloadType = unpacker.payloadType
-		outPkt.Timestamp = rtpTimestamp2Ms(p.Packet.Header.Timestamp, unpacker.clockRate)
+		outPkt.Timestamp = unpacker.clock.ms(p.Packet.Header.Timestamp)
 		// TODO chef: 这里1024的含义
 		if unpacker.clockRate > 0 {
 			// a clock rate of 0 comes from the peer's SDP (a=rtpmap:97 MPEG4-GENERIC/0): no spacing can be derived
